@@ -90,6 +90,10 @@ func (Tail) Generate(seed uint64, tier string) engine.Plan {
 	r := engine.NewPRNG(seed)
 	p := &TailPlan{NetSeed: r.Uint64(), ProbeSeed: r.Uint64()}
 	p.Offset = r.PickInt64(0, 0, 64, 640, 1<<40)
+	if r.Chance(1, 8) {
+		// around the widths a narrower intermediate would have
+		p.Offset = r.PickInt64(1<<15, 1<<16-64, 1<<16, 1<<31-64, 1<<31, 1<<32-64, 1<<32, 1<<53, 1<<62)
+	}
 	p.Threshold = r.PickInt64(64, 128, 128, 1024, 0)
 	np := r.PickInt(1, 1, 2, 3, 4)
 	base := p.Offset + r.PickInt64(-70, -1, 0, 0, 0, 1, 63, 64, 65, 640)
